@@ -141,3 +141,83 @@ func verifyAgainstAny(ti tokenInfo, keys []map[string]any) error {
 
 	return fmt.Errorf("none of the %d published keys with kid %q (alg %s) verifies the signature", n, kid, alg)
 }
+
+// TestTokensHandedOutAfterAReloadVerify: the finalizer caches issued tokens (ttl well above the 5 s it keeps as
+// margin). The key store is replaced between requests - by another key under the same explicit key id, by the same
+// key, or by a key with another id. Oracle: whatever the finalizer hands to the upstream verifies against the key set
+// published at that time.
+func TestTokensHandedOutAfterAReloadVerify(t *testing.T) {
+	rapid.Check(t, func(t *rapid.T) {
+		dir, err := os.MkdirTemp("", "c16r-")
+		if err != nil {
+			t.Fatalf("harness: %v", err)
+		}
+		defer os.RemoveAll(dir)
+
+		// (ecp256/ecp256b and rsa2048/rsa2048b are different keys for the same algorithm)
+		keys := []string{"ecp256", "ecp256b", "ecp256b", "ecp384", "rsa2048", "rsa2048b"}
+		first := ksEntry{Key: rapid.SampledFrom(keys).Draw(t, "firstKey"), Format: "pkcs8", KeyID: rapid.SampledFrom([]string{"sig", ""}).Draw(t, "firstKid")}
+		path := filepath.Join(dir, "keystore.pem")
+
+		if err = os.WriteFile(path, renderKeyStore([]ksEntry{first}), 0o600); err != nil {
+			t.Fatalf("harness: %v", err)
+		}
+
+		conf := vkit.DefaultConf()
+		conf.Prototypes.Authenticators = []config.Mechanism{{ID: "anon", Type: "anonymous"}}
+		conf.Prototypes.Finalizers = []config.Mechanism{{ID: "jwt", Type: "jwt", Config: config.MechanismConfig{
+			"signer": map[string]any{"key_store": map[string]any{"path": path}}, "ttl": rapid.SampledFrom([]string{"15m", "1h", "30s"}).Draw(t, "ttl")}}}
+
+		w, err := vkit.NewWorld(vkit.WorldOpts{Conf: conf, Cache: vkit.NewRecCache()})
+		if err != nil {
+			t.Fatalf("harness: %v", err)
+		}
+
+		if err = w.Load("src", rulecfg.Rule{ID: "r", Matcher: rulecfg.Matcher{Routes: []rulecfg.Route{{Path: "/**"}}},
+			Execute: []config.MechanismConfig{{"authenticator": "anon"}, {"finalizer": "jwt"}}}); err != nil {
+			t.Fatalf("harness: %v", err)
+		}
+
+		history := []string{fmt.Sprintf("start with %s kid=%q", first.Key, first.KeyID)}
+		cur := first
+		reloadedSameKid := false
+
+		steps := rapid.IntRange(2, 6).Draw(t, "steps")
+		for i := 0; i < steps; i++ {
+			if rapid.IntRange(0, 2).Draw(t, "reload") == 0 {
+				next := ksEntry{Key: rapid.SampledFrom(keys).Draw(t, "nextKey"), Format: "pkcs8", KeyID: rapid.SampledFrom([]string{"sig", "sig", "", "other"}).Draw(t, "nextKid")}
+				reloadedSameKid = reloadedSameKid || next.KeyID != "" && next.KeyID == cur.KeyID && next.Key != cur.Key
+				cur = next
+
+				if err = os.WriteFile(path, renderKeyStore([]ksEntry{next}), 0o600); err != nil {
+					t.Fatalf("harness: %v", err)
+				}
+
+				w.Watcher.Fire(path)
+				history = append(history, fmt.Sprintf("reload with %s kid=%q", next.Key, next.KeyID))
+
+				continue
+			}
+
+			ti, _, ierr := issue(w)
+			if ierr != nil {
+				t.Fatalf("issuing failed: %v\n%s", ierr, strings.Join(history, "\n"))
+			}
+
+			jwks, raw, jerr := jwksOf(w)
+			if jerr != nil {
+				t.Fatalf("jwks: %v", jerr)
+			}
+
+			history = append(history, fmt.Sprintf("request: token with kid=%v alg=%v", ti.Header["kid"], ti.Header["alg"]))
+
+			if verr := verifyAgainstAny(ti, jwks); verr != nil {
+				t.Fatalf("the token handed to the upstream does not verify against the published key set: %v\nhistory:\n  %s\nkey set: %s", verr, strings.Join(history, "\n  "), raw)
+			}
+		}
+
+		vkit.S.Eval()
+		vkit.S.LabelIf(reloadedSameKid, "reload.other_key_under_the_same_key_id")
+		vkit.S.NonTrivial("reload|"+strings.Join(history, "|"), map[string]any{"cached_tokens_and_reloads": true, "history": history})
+	})
+}
